@@ -284,6 +284,11 @@ private:
 
         int entries = this->_info._num_colors;
 
+        // a palette belongs to at most 8 bits per pixel; the header's 32 bit count alone must not size it
+        io_error_if( entries < 0 || entries > 256
+                   , "Invalid number of colors in BMP file."
+                   );
+
         if( entries == 0 )
         {
             entries = 1u << this->_info._bits_per_pixel;
